@@ -19,7 +19,9 @@ LEVEL = "exploration"
 RULE = (
     "all expression trees letter2(letter1(X)) and letter(X) over the letter alphabet "
     "(unary minus; sparse matrix @ in 5 formats x square/rectangular x spmatrix/sparray; "
-    "4 row slicings; 24 library functions; + - * / ** with AdArray, float, int, float-array "
+    "10 row slicings (int, negative int, slices, negative slice, integer ndarrays without and with "
+    "negative / repeated / unsorted entries, boolean ndarray, Python list with a negative entry); "
+    "24 library functions; + - * / ** with AdArray, float, int, float-array "
     "and int-array partners on either admissible side; maximum in all pairings), plus "
     "op(r1(X), r2(Y)) for representative letters r1, r2 and op in + - * / ** maximum; plus "
     "DAG programs w=r1(X), z=r2(Y), f=g(w,z), f o w and w o f (o in + - * /; g over + - * / ** "
@@ -264,6 +266,8 @@ def run_case(case) -> Outcome:
                             bad = ("operand mutated", {"error": muts[0], "result": "value and Jacobian of the result itself are right"})
                         else:
                             bad[1]["operand_mutated"] = muts[0]
+            except G.MalformedJacobian as exc:
+                bad = ("Jacobian is a malformed sparse matrix", {"error": str(exc)[:300]})
             except Exception as exc:  # in-domain expression must evaluate
                 bad = ("evaluation raised", {"error": repr(exc)[:300]})
             if bad is not None:
